@@ -193,18 +193,22 @@ CHECKS["C20"] = {
 }
 CHECKS["C07"] = {
     "level": "proof",
-    "text": "Kernel-checked theorems over the bookkeeping model of IntegratorLearner, for every number type, every oracle for the "
-            "abscissae and for the numeric outcome of complete_process, all parameters and every history of tell (any abscissa) / ask "
-            "(any size, committing or rolled back) / tie re-ordering: no abscissa is pushed or handed out twice; a foreign abscissa is "
-            "rejected with the state unchanged; no AssertionError/KeyError site of the learner is reachable (nested abscissae assumed); "
-            "igral/err are the sums over the approximating intervals. PARTIAL: `done_leaves is a cut of the subtree` is proved only as "
-            "soundness of a decidable check that the driver evaluates on reached states (integ_cut_partition_partial). Tie: bit-exact "
-            "lock-step of ask results, complete_process call order, approximating intervals, npoints, pending, done(), igral/err, error "
-            "class. Search: the property's clauses on the real learner after every operation; regression corpus of four repaired defects.",
+    "text": "Kernel-checked theorems over the bookkeeping model of IntegratorLearner, for every number type, every oracle for the abscissae and for "
+            "the numeric outcome of complete_process, all parameters and every history of tell (any abscissa) / ask (any size, committing or rolled "
+            "back) / tie re-ordering: no abscissa is pushed or handed out twice; a foreign abscissa is rejected with the state unchanged; no "
+            "AssertionError/KeyError site of the learner is reachable (nested abscissae: hypothesis, discharged for the real Clenshaw-Curtis node "
+            "tables dumped from integrator_coeffs on every run - index map k -> 2k proved by kernel evaluation); in every reachable state every "
+            "non-empty done_leaves is a cut of its interval's subtree (full: invariant of the done-leaves walk incl. revived intervals, split, "
+            "refine, remove; recursive and path formulation), its intervals are contiguous from a to b under split's midpoint relation, the "
+            "approximating intervals span the constructor's bounds; the fuel of the model's tree recursions is never exhausted; igral/err are the "
+            "sums over the approximating intervals. Tie: bit-exact lock-step of ask results, complete_process call order, approximating intervals, "
+            "npoints, pending, done(), igral/err, error class. Search: the property's clauses on the real learner after every operation; "
+            "regression corpus of four repaired defects.",
     "design_ref": "DESIGN.md section 6 C07",
     "note": "Trusted: Lean kernel, standard axioms, hand model Integ.lean tied by differential testing with everything numeric as a "
             "recorded oracle (harness/integ_drive.py wrappers), constants ns/ndiv_max asserted at run time, SortedSet(key=rdepth) order, "
-            "tie order after a rolled-back ask taken from the code (relational). Reading: the partition clause applies whenever the set "
+            "tie order after a rolled-back ask taken from the code (relational); node tables: harness/integ_tables.py (asserts "
+            "_Interval.points = (a+b)/2 + (b-a)*xi/2 elementwise). Reading: the partition clause applies whenever the set "
             "of approximating intervals is non-empty. Histories stop at the first divergence / NaN error estimate.",
     "technique": T,
 }
